@@ -139,13 +139,17 @@ func (sc *Scenario) runSchedule(prefix, prefixN []uint8, hb bool, prune func(uin
 			vrt.Abort(vrt.AbortDeadlock)
 		}()
 		var parts, details []string
+		blocked := map[string]bool{}
+		for _, b := range jr.Blocked {
+			blocked[b.Name] = true
+		}
 		for _, t := range vrt.Threads() {
-			if t.Stack == "" {
+			if t.Stack == "" || !blocked[t.Name] {
 				continue
 			}
 			fr := vrt.FrameSummary(t.Stack, 4)
 			if len(fr) > 0 {
-				parts = append(parts, fr[0])
+				parts = append(parts, frameSig(fr))
 				details = append(details, fmt.Sprintf("%s blocked in %s", t.Name, strings.Join(fr, " <- ")))
 			}
 		}
@@ -320,6 +324,7 @@ type schedOut struct {
 	Sample    []string    `json:"sample,omitempty"`
 	Trace     []string    `json:"trace,omitempty"`
 	Deadlocks int         `json:"deadlocks"`
+	BoundDone int         `json:"bound_done"`
 	Infra     string      `json:"infra,omitempty"`
 	Races     []string    `json:"races,omitempty"`
 }
@@ -383,9 +388,15 @@ func (sc *Scenario) explore(a schedArg) (out schedOut) {
 				}
 			}
 			if !ok {
-				sig := "not-linearizable"
+				base := sc.Name
+				if i := strings.Index(base, "-"); i > 0 {
+					if j := strings.Index(base[i+1:], "-"); j > 0 {
+						base = base[i+1+j+1:] // without check id and store
+					}
+				}
+				sig := "not-linearizable:" + base
 				if _, known := seq[key]; known {
-					sig = "not-linearizable:real-time-order"
+					sig = "not-linearizable:real-time-order:" + base
 				}
 				vs = append(vs, V("as-if-one-at-a-time", sig, "no sequential order of the requests (consistent with their real-time order) produces this outcome:\n%s\nsequential outcomes:\n%s", clipStr(key, 1800), seqSummary(seq)))
 			}
@@ -425,55 +436,89 @@ func (sc *Scenario) explore(a schedArg) (out schedOut) {
 		out.Infra = fmt.Sprintf("nondeterministic replay of the default schedule of %s (%d vs %d points)", sc.Name, len(c1), len(c2))
 		return out
 	}
-	seen := map[uint64]uint16{}
 	outcomes := map[string]bool{}
 	hb := !sc.NoHB && !vrt.RaceBuild
 	complete := true
-	var dfs func(prefix, prefixN []uint8)
-	dfs = func(prefix, prefixN []uint8) {
-		if time.Now().After(deadline) {
-			complete = false
-			return
-		}
-		x := sc.runSchedule(prefix, prefixN, hb, nil, false)
-		check(&x, prefix, seq)
-		outcomes[HashStr(outcomeKey(x.res, x.final))] = true
-		if len(out.Sample) < 3 {
-			c, _ := choicesOf(x.points, len(x.points))
-			out.Sample = append(out.Sample, fmt.Sprintf("schedule %v -> %s", c, clipStr(outcomeKey(x.res, ""), 300)))
-		}
-		if out.Infra != "" {
-			return
-		}
-		for i := len(prefix); i < len(x.points); i++ {
-			p := x.points[i]
-			if hb {
-				if pre, ok := seen[p.Key]; ok && pre <= p.Pre {
-					break
-				}
-				seen[p.Key] = p.Pre
+	classes := 0
+	// iterative preemption bounding: everything with 0 preemptions, then 1, ... so that the bound that was
+	// completed is known when the budget runs out
+	out.BoundDone = -1
+	for b := 0; b <= sc.Bound; b++ {
+		seen := map[uint64]uint16{}
+		complete = true
+		var dfs func(prefix, prefixN []uint8)
+		dfs = func(prefix, prefixN []uint8) {
+			if time.Now().After(deadline) {
+				complete = false
+				return
 			}
-			for alt := 1; alt < int(p.N); alt++ {
-				cost := int(p.Pre)
-				if p.CurEn && p.Kind != vrt.OpChoice {
-					cost++
+			x := sc.runSchedule(prefix, prefixN, hb, nil, false)
+			check(&x, prefix, seq)
+			outcomes[HashStr(outcomeKey(x.res, x.final))] = true
+			if len(out.Sample) < 3 {
+				c, _ := choicesOf(x.points, len(x.points))
+				out.Sample = append(out.Sample, fmt.Sprintf("schedule %v -> %s", c, clipStr(outcomeKey(x.res, ""), 300)))
+			}
+			if out.Infra != "" {
+				return
+			}
+			for i := len(prefix); i < len(x.points); i++ {
+				p := x.points[i]
+				if hb {
+					if pre, ok := seen[p.Key]; ok && pre <= p.Pre {
+						break
+					}
+					seen[p.Key] = p.Pre
 				}
-				if cost > sc.Bound {
-					continue
-				}
-				c, m := choicesOf(x.points, i)
-				dfs(append(c, uint8(alt)), append(m, p.N))
-				if out.Infra != "" {
-					return
+				for alt := 1; alt < int(p.N); alt++ {
+					cost := int(p.Pre)
+					if p.CurEn && p.Kind != vrt.OpChoice {
+						cost++
+					}
+					if cost > b {
+						continue
+					}
+					c, m := choicesOf(x.points, i)
+					dfs(append(c, uint8(alt)), append(m, p.N))
+					if out.Infra != "" || !complete {
+						return
+					}
 				}
 			}
 		}
+		dfs(nil, nil)
+		if len(seen) > classes {
+			classes = len(seen)
+		}
+		if !complete || out.Infra != "" {
+			break
+		}
+		out.BoundDone = b
 	}
-	dfs(nil, nil)
+	seen := map[uint64]uint16{}
+	_ = seen
 	out.Complete = complete
-	out.HBClasses = len(seen)
+	out.HBClasses = classes
 	out.Outcomes = len(outcomes)
 	return out
+}
+
+// frameSig: the two innermost olareg frames of a blocked thread, closure suffixes and package paths shortened.
+func frameSig(fr []string) string {
+	n := 2
+	if len(fr) < n {
+		n = len(fr)
+	}
+	var out []string
+	for _, f := range fr[:n] {
+		f = strings.TrimPrefix(f, "internal/")
+		if i := strings.Index(f, ".func"); i > 0 {
+			f = f[:i]
+		}
+		f = strings.ReplaceAll(f, "[...]", "")
+		out = append(out, f)
+	}
+	return strings.Join(out, "<-")
 }
 
 func (sc *Scenario) stepNames() []string {
@@ -572,7 +617,7 @@ func RunSchedInto(rep *Report, id, tier string) {
 		rep.Outcomes += so.Outcomes
 		rep.NonTrivial += so.Outcomes
 		if !so.Complete {
-			rep.Cap("%s: time budget reached inside preemption bound %d after %d executions", sc.Name, so.Bound, so.Execs)
+			rep.Cap("%s: time budget reached inside preemption bound %d after %d executions (bound %d completed)", sc.Name, so.BoundDone+1, so.Execs, so.BoundDone)
 		}
 		for _, v := range so.Viol {
 			rep.AddViolation(v)
@@ -584,7 +629,7 @@ func RunSchedInto(rep *Report, id, tier string) {
 			rep.AddViolation(v)
 		}
 		rep.Parts = append(rep.Parts, map[string]any{"scenario": sc.Name, "executions": so.Execs, "scheduling_decisions": so.Points, "max_decisions_per_execution": so.MaxPts,
-			"hb_classes": so.HBClasses, "distinct_outcomes": so.Outcomes, "sequential_reference_runs": so.SeqRuns, "preemption_bound": so.Bound, "bound_completed": so.Complete, "executions_ending_in_deadlock": so.Deadlocks})
+			"hb_classes": so.HBClasses, "distinct_outcomes": so.Outcomes, "sequential_reference_runs": so.SeqRuns, "preemption_bound": so.Bound, "bound_completed": so.BoundDone, "all_bounds_completed": so.Complete, "executions_ending_in_deadlock": so.Deadlocks})
 		if len(rep.Samples) < 6 && len(so.Sample) > 0 {
 			rep.Samples = append(rep.Samples, map[string]any{"scenario": sc.Name, "threads": sc.stepNames(), "schedules": so.Sample})
 		}
